@@ -1290,6 +1290,75 @@ func (s *State) join(o *State, widen bool, joinTok string) bool {
 		}
 		changed = true
 	}
+	// memory cells holding different scalar / slice values: generalise to a
+	// per-join leaf carrying the union of what is known (the memory analogue
+	// of the phi generalisation above; named results and struct fields of
+	// helpers need it where the original code had an SSA phi)
+	for k, v := range s.mem {
+		ov, ok := o.mem[k]
+		if !ok || ov.Key == v.Key || v.Typ == nil || ov.Typ == nil {
+			continue
+		}
+		// the cell's declared type (value-preserving conversions leave the
+		// stored terms with narrower types)
+		lt := v.Typ
+		if me := s.memE[k]; me != nil && me.Typ != nil {
+			if pt, isP := me.Typ.Underlying().(*types.Pointer); isP {
+				lt = pt.Elem()
+			}
+		}
+		joinable := false
+		switch {
+		case isBoolType(lt):
+			joinable = isBoolType(v.Typ) && isBoolType(ov.Typ)
+		case intTypeInfo(lt).ok:
+			joinable = isIntExpr(v) && isIntExpr(ov)
+		default:
+			if _, isSl := lt.Underlying().(*types.Slice); isSl {
+				joinable = types.Identical(v.Typ, ov.Typ)
+			}
+		}
+		if !joinable {
+			continue
+		}
+		leaf := mkLeaf("mphi", k+"@"+joinTok, lt)
+		side := func(val *Expr, src *State) map[string]ISet {
+			tmp := newState(s.an)
+			if val.Key != leaf.Key {
+				tmp.transferTo(leaf, val, src)
+				return tmp.rng
+			}
+			out := map[string]ISet{}
+			for rk, r := range src.rng {
+				if strings.Contains(rk, leaf.Key) {
+					out[rk] = r
+				}
+			}
+			return out
+		}
+		a, b := side(v, s), side(ov, o)
+		for rk := range s.rng {
+			if strings.Contains(rk, leaf.Key) {
+				delete(s.rng, rk)
+			}
+		}
+		for rk, ra := range a {
+			rb, has := b[rk]
+			if !has {
+				continue
+			}
+			u := ra.Union(rb)
+			if widen && !u.Equal(ra) {
+				continue // growing at a loop head: give the range up
+			}
+			s.rng[rk] = u
+			keep[rk] = true
+		}
+		s.mem[k] = leaf
+		o2 := ov
+		_ = o2
+		changed = changed || v.Key != leaf.Key
+	}
 	for k, r := range s.rng {
 		if keep[k] {
 			continue
@@ -1331,6 +1400,9 @@ func (s *State) join(o *State, widen bool, joinTok string) bool {
 	}
 	for k, v := range s.mem {
 		ov, ok := o.mem[k]
+		if ok && v.Op == "mphi" && strings.HasSuffix(v.S, "@"+joinTok+"#") {
+			continue // generalised above
+		}
 		if !ok || ov.Key != v.Key {
 			e := s.memE[k]
 			delete(s.mem, k)
